@@ -82,18 +82,19 @@ Section GenericSize.
       split; [destruct o; lia|]. intros H1 H2. apply Hno2; lia.
   Qed.
 
-  Lemma ifilter_sz n keep : forall s o s' ev,
-    ifilter nx n keep s = (o, s', ev) ->
+  Lemma ifilter_sz n keep fl : forall calls s o calls' s' ev,
+    ifilter nx n keep fl calls s = (o, (calls', s'), ev) ->
     (match o with Item _ => sz s' < sz s | Out => True | _ => sz s' <= sz s end)%nat /\
     ((sz s < n)%nat -> (sz s <= F)%nat -> o <> Out).
   Proof.
-    induction n as [|n IH]; intros s o s' ev Hc; simpl in Hc.
+    induction n as [|n IH]; intros calls s o calls' s' ev Hc; simpl in Hc.
     - inv_ret Hc. szsolve.
     - destruct (nx s) as [[o1 s1] ev1] eqn:E. destruct (Hsz _ _ _ _ E) as [Hd Hno].
       destruct o1 as [x| | | |]; try (inv_ret Hc; szsolve; fail).
+      destruct (panics_now fl calls); [inv_ret Hc; szsolve|].
       destruct (pred_eval keep x); [inv_ret Hc; szsolve|].
-      destruct (ifilter nx n keep s1) as [[o2 s2] ev2] eqn:E2.
-      simpl in Hc. inv_ret Hc. destruct (IH _ _ _ _ E2) as [Hd2 Hno2].
+      destruct (ifilter nx n keep fl (S calls) s1) as [[o2 [c2 s2]] ev2] eqn:E2.
+      simpl in Hc. inv_ret Hc. destruct (IH _ _ _ _ _ _ E2) as [Hd2 Hno2].
       split; [destruct o; lia|]. intros H1 H2. apply Hno2; lia.
   Qed.
 
@@ -108,17 +109,17 @@ Section GenericSize.
       intros Hc. inv_ret Hc. auto.
   Qed.
 
-  Lemma imap_sz f s o s' ev :
-    imap nx f s = (o, s', ev) ->
+  Lemma imap_sz f fl calls s o calls' s' ev :
+    imap nx f fl calls s = (o, (calls', s'), ev) ->
     (match o with Item _ => sz s' < sz s | Out => True | _ => sz s' <= sz s end)%nat /\
     ((sz s <= F)%nat -> o <> Out).
   Proof.
     unfold imap. destruct (nx s) as [[o1 s1] ev1] eqn:E. destruct (Hsz _ _ _ _ E) as [Hd Hno].
-    intros Hc. destruct o1; inv_ret Hc; szsolve.
+    intros Hc. destruct o1; [destruct (panics_now fl calls)| | | |]; inv_ret Hc; szsolve.
   Qed.
 
-  Lemma iwhile_sz f done s o done' s' ev :
-    iwhile nx f done s = (o, (done', s'), ev) ->
+  Lemma iwhile_sz f fl calls done s o calls' done' s' ev :
+    iwhile nx f fl calls done s = (o, (calls', done', s'), ev) ->
     (match o with Item _ => sz s' < sz s | Out => True | _ => sz s' <= sz s end)%nat /\
     ((sz s <= F)%nat -> o <> Out).
   Proof.
@@ -126,6 +127,7 @@ Section GenericSize.
     - intros Hc. inv_ret Hc. szsolve.
     - destruct (nx s) as [[o1 s1] ev1] eqn:E. destruct (Hsz _ _ _ _ E) as [Hd Hno].
       intros Hc. destruct o1 as [x| | | |]; try (inv_ret Hc; szsolve; fail).
+      destruct (panics_now fl calls); [inv_ret Hc; szsolve|].
       destruct (pred_eval f x); inv_ret Hc; szsolve.
   Qed.
 
